@@ -52,11 +52,8 @@ def run(program, res, tier):
                  f"identifier_quote={d.const_kwarg('identifier_quote')!r}, string_quote={d.const_kwarg('string_quote')!r} are not PostgreSQL's",
                  "data_algebra/PostgreSQL.py", 0)
     # join keywords
-    sj = program.func("expr_rep", "standardize_join_type")
-    allowed = set()
-    for st in ast.walk(sj.node):
-        if isinstance(st, ast.Assign) and isinstance(st.value, ast.Set):
-            allowed = {e.value for e in st.value.elts if isinstance(e, ast.Constant)}
+    from . import c16 as _c16
+    _accepted, allowed = _c16.join_type_image(program)   # the join types that reach the SQL generator
     nj = program.method("sql_model", "SQLModel", "natural_join_to_near_sql", inherited=False)
     if "natural_join_to_near_sql" in d.cls.methods:
         res.abstain("C02-S1", "PostgreSQL join keywords", "PostgreSQLModel overrides natural_join_to_near_sql")
